@@ -385,12 +385,12 @@ const Call &Session::data_call(char kind, const char *d, size_t n, bool gap) {
     int dir = (kind == '>' || kind == 'g') ? 0 : 1;
     // exact-size heap copy, freed right after the call: any over-read or retained pointer is an ASan report
     char *buf = nullptr;
-    if (!gap) { buf = (char *)malloc(n ? n : 1); if (n) memcpy(buf, d, n); }
+    if (!gap) { buf = (char *)::operator new(n ? n : 1); if (n) memcpy(buf, d, n); } // operator new: the harness never uses malloc directly (c18 wraps malloc for fault injection)
     int was_sticky = sticky_[dir], was_tunnel = tunnel_[dir];
     int rc; size_t consumed;
     if (dir == 0) { rc = htp_connp_req_data(connp_, NULL, gap ? NULL : buf, n); consumed = htp_connp_req_data_consumed(connp_); }
     else { rc = htp_connp_res_data(connp_, NULL, gap ? NULL : buf, n); consumed = htp_connp_res_data_consumed(connp_); }
-    free(buf);
+    ::operator delete(buf);
     // invalidate the library's view of the freed chunk for the *pointer* only; offsets are left alone (they are what
     // htp_connp_re[qs]_data_consumed reports). Nothing to do: the library must not touch it again anyway.
     end_call(c, rc, consumed);
